@@ -21,8 +21,8 @@ import (
 	"github.com/ethereum/go-ethereum/crypto"
 	"github.com/ethereum/go-ethereum/rlp"
 	"github.com/polynetwork/poly/common"
-	hscom "github.com/polynetwork/poly/native/service/header_sync/common"
 	"github.com/polynetwork/poly/native/service/governance/side_chain_manager"
+	hscom "github.com/polynetwork/poly/native/service/header_sync/common"
 	"github.com/polynetwork/poly/native/service/utils"
 
 	"verif/harness/world"
@@ -71,10 +71,10 @@ type adapter struct {
 	name        string
 	router      uint64
 	kind        string // "" = Parlia/Congress family (validator lists in epoch headers), "clique" = msc (votes), "bor" = polygon
-	sealChainID bool // the EVM chain id is the first element of the sealed RLP list (Parlia)
-	delayed     bool // a new validator list takes effect after floor(|old|/2) further blocks (Parlia); else with the next block (Congress)
-	contRule    int  // 0: none; 1: no epoch header while a change is pending; 2: no epoch header within floor(|cur|/2) blocks of the last one
-	period      bool // header.time >= parent.time + Period
+	sealChainID bool   // the EVM chain id is the first element of the sealed RLP list (Parlia)
+	delayed     bool   // a new validator list takes effect after floor(|old|/2) further blocks (Parlia); else with the next block (Congress)
+	contRule    int    // 0: none; 1: no epoch header while a change is pending; 2: no epoch header within floor(|cur|/2) blocks of the last one
+	period      bool   // header.time >= parent.time + Period
 	gasDiv      uint64 // |gasLimit - parent.gasLimit| < parent.gasLimit/gasDiv and gasLimit >= 5000 (0: the router documents no such rule)
 }
 
